@@ -556,6 +556,10 @@ def make_keys_plan(seed, nkeys=3, dup=False, use_wrapper=False):
                         yield Msg("open_run", run=f"K{kk}", key=f"K{kk}", dup=True)
                         P(h, "dup-open-accepted", kk)
                     except Exception as e:  # noqa: BLE001
+                        from bluesky.utils import FailedPause, RunEngineControlException
+
+                        if isinstance(e, (RunEngineControlException, FailedPause)):
+                            raise  # an abort/stop thrown at this yield is not ours to swallow
                         P(h, "dup-open-rejected", kk, e)
             P(h, "body-complete")
 
